@@ -107,6 +107,8 @@ def scenario(job):
                     real_of[c] = ev['conn']
                     return True
                 return False
+            if name == 'AbortTxn' and ev['ev'] == 'AbortDone' and ev.get('thread') == thread_of[c]:
+                return True       # a transaction that never joined ends without Connection.abort being called
             if ev['ev'] != name or ev.get('conn') != real_of.get(c, c):
                 return False
             if name in ('Read', 'Write'):
@@ -145,8 +147,11 @@ def scenario(job):
                     elif op[0] == 'write':
                         c.root()[op[1]].value += 1
                     elif op[0] == 'abort':
+                        n0 = len(D.events)
                         tm.abort()
                         in_txn = False
+                        if not any(e['ev'] == 'AbortTxn' for e in D.events[n0:]):
+                            D.emit(ev='AbortDone', conn='-')
                     elif op[0] == 'commit':
                         try:
                             tm.commit()
@@ -187,6 +192,8 @@ def scenario(job):
     rank = {t: i + 1 for i, t in enumerate(sorted(tids))}
     out = []
     for e in events:
+        if e['ev'] == 'AbortDone':
+            continue          # director bookkeeping only, not part of the trace
         e = {k: v for k, v in e.items() if k not in ('seq', 'step')}
         for k in ('tid', 'polled', 'serial'):
             if k in e:
